@@ -213,7 +213,7 @@ type profile struct {
 
 var allActs = []string{"equivocate", "badparent", "staleqc", "inflate", "dupsigner", "relabel", "subquorum",
 	"wrongblock", "genesisview", "futuretimeout", "badtimeoutsig", "dupvote", "multivote", "zerovote", "unknownvote",
-	"strayvote", "replay", "liefetch", "silent", "staleTC", "swapids", "nosig", "sameview", "aggreplay", "forgevote", "forgetc", "forgecontrib", "aggtwin"}
+	"strayvote", "replay", "liefetch", "silent", "staleTC", "swapids", "nosig", "sameview", "aggreplay", "forgevote", "forgetc", "forgecontrib", "aggtwin", "aggattest", "aggforge", "roguekey"}
 
 func profileFor(prop string) profile {
 	pr := profile{byz: 0.6, acts: allActs, faults: 6, leaders: []string{"round-robin", "round-robin", "round-robin", "fixed", "carousel", "reputation", "scripted"}}
@@ -301,11 +301,19 @@ func GenPlan(prop string, seed uint64) *Plan {
 			}
 		}
 	}
-	if (prop == "C08" || prop == "C11" || prop == "C02") && p.Ruleset != "fasthotstuff" && g.p(0.4) {
+	if (prop == "C08" || prop == "C11" || prop == "C02" || prop == "C07") && p.Ruleset != "fasthotstuff" && g.p(0.4) {
 		if p.Knobs == nil {
 			p.Knobs = map[string]int{}
 		}
 		p.Knobs["aggqc"] = 1
+	}
+	if prop == "C03" && p.Ruleset == "fasthotstuff" {
+		// proposals carry aggregates only here; every view ends by timeout on this tree (K1), so they always do
+		pr.acts = append(append([]string{}, pr.acts...), "aggforge", "aggforge", "aggforge", "aggforge", "aggforge", "aggforge", "aggforge", "aggforge")
+	}
+	if prop == "C07" && (p.Ruleset == "fasthotstuff" || p.Knobs["aggqc"] == 1) {
+		// aggregate mode: the only way a QC reaches an honest replica's state on this tree is inside an aggregate (K1)
+		pr.acts = append(append([]string{}, pr.acts...), "aggattest", "aggattest", "aggattest", "aggattest", "aggattest", "aggattest", "aggattest", "aggattest")
 	}
 	if prop == "C02" && (p.Ruleset == "fasthotstuff" || p.Knobs["aggqc"] == 1) {
 		// aggregate certificates in use: weight the one forgery that lives inside them
@@ -428,6 +436,30 @@ func GenPlan(prop string, seed uint64) *Plan {
 			}
 			p.Byz = append(p.Byz, b)
 			budget--
+		}
+	}
+	if prop == "C07" && len(p.Byz) > 0 && (p.Ruleset == "fasthotstuff" || p.Knobs["aggqc"] == 1) && mix(p.Inner, 0x61747465)%2 == 0 {
+		// a Byzantine replica whose timeouts alternately attest the newest genuine QC and nothing, on lossy links with
+		// early timers: aggregates with and without that QC reach different honest replicas
+		p.Byz[0].Kind, p.Byz[0].Acts, p.Byz[0].Rate = "script", []string{"aggattest"}, 1.0
+		if p.EarlyTimer == 0 {
+			p.EarlyTimer = 0.1
+		}
+		if p.Links.Drop < 0.08 {
+			p.Links.Drop = 0.08
+		}
+	}
+	if prop == "C02" && len(p.Byz) > 0 && p.Crypto == "bls12" && p.N >= 4 && mix(p.Inner, 0x726f6775)%2 == 0 {
+		// rogue-key attack on BLS aggregation: one Byzantine replica is configured with g1^x - pk(victim) and the
+		// victim's proof of possession, and forges certificates from q-2 genuine votes
+		p.Byz = p.Byz[:1]
+		p.Byz[0].Kind, p.Byz[0].Acts, p.Byz[0].Rate = "script", []string{"roguekey"}, 1.0
+		if p.Knobs == nil {
+			p.Knobs = map[string]int{}
+		}
+		p.Knobs["roguekey"] = 1
+		if p.Leader == "scripted" || p.Leader == "fixed" {
+			p.Leader, p.Script = "round-robin", nil
 		}
 	}
 	if prop == "C02" && len(p.Byz) > 0 && (p.Ruleset == "fasthotstuff" || p.Knobs["aggqc"] == 1) && p.Crypto != "bls12" && mix(p.Inner, 0x61747769)%2 == 0 {
